@@ -6,6 +6,12 @@ CLAIMED = {
          "Byte-equality and strict/relaxed equivalence are checked online on every execution: all strings of length <=6 (quick) / <=7 (thorough) over 16 lexer-class representatives, generated+mutated documents, repository corpora, chunked/interrupted/failing readers. Held = no counterexample among the executions listed in the evidence."),
  "C02": ("totality monitor: every entry point of a 65-row table called under panic capture, a logical step budget (hook) and an allocation counter; sweeps, grammar prefixes/deletions, typed documents with hostile values, scaling series",
          "Each call of each text-parsing entry point is executed under catch_unwind with the parser step counter armed (256(n+16)+4(n+16)^2) and allocation counted; a panic, budget overrun, fitted growth exponent > 2.2 on adversarial families, or process death (attributed through an in-flight slot and confirmed on solitary replay) is a violation. Held = none observed on the listed executions."),
+ "C03": ("reference-model oracle: generated well-formed documents (model known by construction, cross-checked by an independent line scanner), exhaustive line-kind sequences, single-line corruptions",
+         "The strict reader's paragraphs/items/keys/get/get_all/contains_key and Paragraph::from_str are compared online with the generator's model on every generated document, on every well-formed sequence of <=6 (quick) / <=7 (thorough) lines over 8 line kinds (exhaustive), and every line of generated documents is replaced by 6 malformed shapes which must be rejected."),
+ "C06": ("differential oracle lossy vs lossless reader over exhaustive short-string sweep, mutated documents, corpora; joint acceptance on generated well-formed documents",
+         "Both readers run on every string of length <=5 (quick) / <=7 (thorough) over 16 class representatives and on generated/mutated/corpus documents; whenever both accept, paragraph structure, field names and non-blank value lines are compared; generated well-formed documents must be accepted by both and match the generator's model."),
+ "C08": ("reference-model oracle: generated canonical lossy documents printed and re-read by both readers; list-model state machine over get/set/insert/remove histories; exhaustive small catalogue",
+         "Each generated lossy document is printed, re-read by the lossy reader (equality, identical second print, exactly one blank line between paragraphs) and by the lossless reader (same content); edit histories over colliding names are checked step by step against a Vec<(name,value)> model."),
 }
 TODO = {}
 props = [json.loads(l) for l in open("/verif/properties.jsonl")]
